@@ -1374,3 +1374,459 @@ func TestWireEndClosesBothWspChannels(t *testing.T) {
 	}
 	evid.Class("wire witness: stream end closes both WSP channels")
 }
+
+// ---------------------------------------------------------------- a player that dies inside PLAY
+
+// rawPlayer is a minimal RTSP player over a connection the test owns, so that it
+// can be reset (SO_LINGER 0 + close: the peer gets an RST and its next write
+// fails) at a chosen moment. Responses are parsed with rtspc.ParseItem.
+type rawPlayer struct {
+	kind string // tcp | udp | ws
+	tcp  *net.TCPConn
+	ws   *websocket.Conn
+	buf  []byte
+	cseq int
+	sess string
+	udp  []*net.UDPConn
+}
+
+func dialRawPlayer(s *srv.Server, kind, path string) (*rawPlayer, error) {
+	p := &rawPlayer{kind: kind}
+	if kind == "ws" {
+		d := websocket.Dialer{Subprotocols: []string{"rtsp"}, HandshakeTimeout: wireBound(),
+			NetDial: func(network, addr string) (net.Conn, error) {
+				c, err := net.DialTimeout(network, addr, wireBound())
+				if err == nil {
+					p.tcp = c.(*net.TCPConn)
+				}
+				return c, err
+			}}
+		ws, _, err := d.Dial(s.WS(path), nil)
+		if err != nil {
+			return nil, err
+		}
+		p.ws = ws
+		return p, nil
+	}
+	c, err := net.DialTimeout("tcp", s.Addr(), wireBound())
+	if err != nil {
+		return nil, err
+	}
+	p.tcp = c.(*net.TCPConn)
+	return p, nil
+}
+
+func (p *rawPlayer) send(method, url string, hdr map[string]string) error {
+	p.cseq++
+	req := fmt.Sprintf("%s %s RTSP/1.0\r\nCSeq: %d\r\nUser-Agent: verif-raw\r\n", method, url, p.cseq)
+	if p.sess != "" {
+		req += "Session: " + p.sess + "\r\n"
+	}
+	for k, v := range hdr {
+		req += k + ": " + v + "\r\n"
+	}
+	req += "\r\n"
+	if p.ws != nil {
+		p.ws.SetWriteDeadline(time.Now().Add(wireBound()))
+		return p.ws.WriteMessage(websocket.BinaryMessage, []byte(req))
+	}
+	p.tcp.SetWriteDeadline(time.Now().Add(wireBound()))
+	_, err := p.tcp.Write([]byte(req))
+	return err
+}
+
+func (p *rawPlayer) do(method, url string, hdr map[string]string) (*rtspc.Response, error) {
+	if err := p.send(method, url, hdr); err != nil {
+		return nil, err
+	}
+	for {
+		if p.ws != nil {
+			p.ws.SetReadDeadline(time.Now().Add(wireBound()))
+			_, m, err := p.ws.ReadMessage()
+			if err != nil {
+				return nil, err
+			}
+			it, n, err := rtspc.ParseItem(m)
+			if err != nil || n != len(m) {
+				return nil, fmt.Errorf("ws message is not one item: %v", err)
+			}
+			if it.Response == nil {
+				continue
+			}
+			return p.note(method, it.Response)
+		}
+		it, n, err := rtspc.ParseItem(p.buf)
+		if err != nil {
+			return nil, err
+		}
+		if n > 0 {
+			p.buf = p.buf[n:]
+			if it.Response == nil {
+				continue
+			}
+			return p.note(method, it.Response)
+		}
+		tmp := make([]byte, 8192)
+		p.tcp.SetReadDeadline(time.Now().Add(wireBound()))
+		k, err := p.tcp.Read(tmp)
+		if err != nil {
+			return nil, err
+		}
+		p.buf = append(p.buf, tmp[:k]...)
+	}
+}
+
+func (p *rawPlayer) note(method string, r *rtspc.Response) (*rtspc.Response, error) {
+	if id := r.SessionID(); id != "" {
+		p.sess = id
+	}
+	if r.Status != 200 {
+		return r, fmt.Errorf("%s answered %d %s", method, r.Status, r.Reason)
+	}
+	return r, nil
+}
+
+// reset drops the connection abruptly: the server receives an RST.
+func (p *rawPlayer) reset() {
+	p.tcp.SetLinger(0)
+	p.tcp.Close()
+}
+
+func (p *rawPlayer) closeUDP() {
+	for _, u := range p.udp {
+		u.Close()
+	}
+}
+
+// serverSideState returns the st column of /proc/self/net/tcp for the server's
+// end of a loopback connection ("" = no such row).
+func serverSideState(serverPort, clientPort int) string {
+	b, err := os.ReadFile("/proc/self/net/tcp")
+	if err != nil {
+		return "?"
+	}
+	want := fmt.Sprintf("0100007F:%04X 0100007F:%04X", serverPort, clientPort)
+	for _, l := range strings.Split(string(b), "\n") {
+		if i := strings.Index(l, want); i >= 0 {
+			f := strings.Fields(l[i+len(want):])
+			if len(f) > 0 {
+				return f[0]
+			}
+		}
+	}
+	return ""
+}
+
+// udpSocketsOfProcess counts the UDP sockets this process holds (its fds whose
+// socket inode is listed in /proc/self/net/udp or udp6); -1 when /proc is not usable.
+func udpSocketsOfProcess() int {
+	inodes := map[string]bool{}
+	for _, f := range []string{"/proc/self/net/udp", "/proc/self/net/udp6"} {
+		b, err := os.ReadFile(f)
+		if err != nil {
+			continue
+		}
+		for i, l := range strings.Split(string(b), "\n") {
+			fs := strings.Fields(l)
+			if i == 0 || len(fs) < 10 {
+				continue
+			}
+			inodes[fs[9]] = true
+		}
+	}
+	ents, err := os.ReadDir("/proc/self/fd")
+	if err != nil {
+		return -1
+	}
+	n := 0
+	for _, e := range ents {
+		l, err := os.Readlink("/proc/self/fd/" + e.Name())
+		if err == nil && strings.HasPrefix(l, "socket:[") && inodes[strings.TrimSuffix(l[len("socket:["):], "]")] {
+			n++
+		}
+	}
+	return n
+}
+
+type diePlan struct {
+	Kind     string `json:"kind"`    // tcp | udp | ws: the player that dies
+	Point    string `json:"point"`   // join.registered | join.snapshotted
+	Active   bool   `json:"active"`  // the publisher keeps sending while PLAY is handled
+	Healthy  string `json:"healthy"` // "" or the transport of a second player attached throughout
+	H265     bool   `json:"h265"`
+	Audio    bool   `json:"audio"`
+	CacheGop bool   `json:"cache_gop"`
+}
+
+type dieSnapshot struct {
+	Consumers  int            `json:"consumers"`
+	RtspConns  int64          `json:"rtsp_conns"`
+	UDPSockets int            `json:"udp_sockets"`
+	Goroutines map[string]int `json:"goroutines"`
+}
+
+func takeDieSnapshot(st *media.Stream) dieSnapshot {
+	g, _ := wireGoroutines()
+	d := dieSnapshot{Consumers: -1, RtspConns: srv.RtspConns(), UDPSockets: udpSocketsOfProcess(), Goroutines: map[string]int{}}
+	if st != nil {
+		d.Consumers = st.ConsumerCount()
+	}
+	for _, k := range []string{"media.(*consumption).consume", "service/rtsp.(*Session).process"} {
+		d.Goroutines[k] = g[k]
+	}
+	return d
+}
+
+func (a dieSnapshot) equal(b dieSnapshot) bool {
+	if a.Consumers != b.Consumers || a.RtspConns != b.RtspConns || a.UDPSockets != b.UDPSockets {
+		return false
+	}
+	for k, v := range a.Goroutines {
+		if b.Goroutines[k] != v {
+			return false
+		}
+	}
+	return true
+}
+
+// dieInsidePlay runs one round: a player sets itself up, and while the server
+// handles its PLAY — at the schedule point p.Point of the join of its consumer,
+// i.e. after fix 0f6ec8b between the registration and the PLAY response — the
+// player's connection is reset, so that the response cannot be written. All that
+// the session held must be released: its consumer, its connection slot, its
+// goroutines, and for UDP the server's sending socket; once more after the stream
+// has ended. A second, healthy player must keep receiving.
+func dieInsidePlay(t evid.TB, p diePlan) {
+	s := srv.Start(srv.Options{})
+	s.SetCacheGop(p.CacheGop)
+	srv.WaitFor(wireBound(), func() bool {
+		g, _ := wireGoroutines()
+		for _, v := range g {
+			if v != 0 {
+				return false
+			}
+		}
+		return true
+	})
+	cdc := esgen.H264
+	if p.H265 {
+		cdc = esgen.H265
+	}
+	path := fmt.Sprintf("/c03w/d%d", atomic.AddUint64(&wireCases, 1))
+	before := takeDieSnapshot(nil)
+	streams0, _ := srv.Streams()
+	st := srv.PublishStream(path, mediah.SDP(cdc, p.Audio))
+	g := &wgen{st: st, seq: 7, ts: 90000}
+	ended := false
+	defer func() {
+		media.VerifSetSched(nil)
+		if !ended {
+			srv.Unpublish(st)
+		}
+	}()
+	receives := func(c *wclient) bool { // the marker and fillers behind it, bounded
+		data, marker := g.packet(p.H265, true)
+		g.publish(data)
+		return srv.WaitFor(wireBound(), func() bool {
+			if c.has(marker) {
+				return true
+			}
+			f, _ := g.packet(p.H265, false)
+			g.publish(f)
+			time.Sleep(2 * time.Millisecond)
+			return false
+		})
+	}
+	var healthy *wclient
+	if p.Healthy != "" {
+		healthy = &wclient{kind: p.Healthy, audio: p.Audio}
+		if err := healthy.attach(s, path); err != nil {
+			t.Fatalf("machinery: the healthy %s player could not attach: %v", p.Healthy, err)
+		}
+		defer healthy.disconnect()
+		if !srv.WaitFor(wireBound(), func() bool { return st.ConsumerCount() == 1 }) || !receives(healthy) {
+			t.Fatalf("machinery: the healthy %s player receives nothing", p.Healthy)
+		}
+	}
+	prior := takeDieSnapshot(st)
+
+	// the player that will die: everything up to PLAY is ordinary
+	dp, err := dialRawPlayer(s, p.Kind, path)
+	if err != nil {
+		t.Fatalf("machinery: dial: %v", err)
+	}
+	defer dp.closeUDP()
+	url := s.RTSP(path)
+	fail := func(step string, err error) {
+		dp.reset()
+		t.Fatalf("machinery: dying %s player, %s: %v", p.Kind, step, err)
+	}
+	if _, err := dp.do("OPTIONS", url, nil); err != nil {
+		fail("OPTIONS", err)
+	}
+	d, err := dp.do("DESCRIBE", url, map[string]string{"Accept": "application/sdp"})
+	if err != nil {
+		fail("DESCRIBE", err)
+	}
+	for tr, ctl := range rtspc.Controls(string(d.Body)) {
+		th := fmt.Sprintf("RTP/AVP/TCP;unicast;interleaved=%d-%d", 2*tr, 2*tr+1)
+		if p.Kind == "udp" {
+			var ports [2]int
+			for k := 0; k < 2; k++ {
+				u, err := net.ListenUDP("udp4", &net.UDPAddr{IP: net.IPv4(127, 0, 0, 1)})
+				if err != nil {
+					fail("udp socket", err)
+				}
+				dp.udp = append(dp.udp, u)
+				ports[k] = u.LocalAddr().(*net.UDPAddr).Port
+			}
+			th = fmt.Sprintf("RTP/AVP;unicast;client_port=%d-%d", ports[0], ports[1])
+		}
+		if _, err := dp.do("SETUP", rtspc.TrackURL(url, ctl.Control), map[string]string{"Transport": th}); err != nil {
+			fail("SETUP", err)
+		}
+	}
+	serverPort := 0
+	if a, ok := dp.tcp.RemoteAddr().(*net.TCPAddr); ok {
+		serverPort = a.Port
+	}
+	clientPort := dp.tcp.LocalAddr().(*net.TCPAddr).Port
+
+	// the reset lands inside the join of this stream's next consumer
+	var fired int32
+	firedCh := make(chan string, 1)
+	media.VerifSetSched(func(point string, obj interface{}) {
+		if point != p.Point || media.VerifConsumptionStream(obj) != st || !atomic.CompareAndSwapInt32(&fired, 0, 1) {
+			return
+		}
+		dp.reset()
+		// let the server go on only when its end of the connection has seen the RST
+		state := serverSideState(serverPort, clientPort)
+		deadline := time.Now().Add(time.Second)
+		for state == "01" && time.Now().Before(deadline) {
+			time.Sleep(50 * time.Microsecond)
+			state = serverSideState(serverPort, clientPort)
+		}
+		firedCh <- state
+	})
+	stop := make(chan struct{})
+	var pubDone sync.WaitGroup
+	if p.Active {
+		pubDone.Add(1)
+		go func() {
+			defer pubDone.Done()
+			for i := 0; ; i++ {
+				select {
+				case <-stop:
+					return
+				default:
+				}
+				data, _ := g.packet(p.H265, i%10 == 0)
+				g.publish(data)
+				time.Sleep(200 * time.Microsecond)
+			}
+		}()
+	}
+	if err := dp.send("PLAY", url, map[string]string{"Range": "npt=0.000-"}); err != nil {
+		close(stop)
+		pubDone.Wait()
+		fail("sending PLAY", err)
+	}
+	var state string
+	select {
+	case state = <-firedCh:
+	case <-time.After(wireBound()):
+		close(stop)
+		pubDone.Wait()
+		media.VerifSetSched(nil)
+		dp.reset()
+		t.Fatalf("machinery: the %s player's PLAY never reached %s within %v", p.Kind, p.Point, wireBound())
+	}
+	media.VerifSetSched(nil)
+	if state == "01" {
+		evid.Class("wire die-inside-PLAY: the server's socket had not seen the reset when the join went on")
+	} else {
+		evid.Class("wire die-inside-PLAY: the server's socket had seen the reset before the PLAY response was written")
+	}
+	dp.closeUDP()
+
+	// (1) everything the dead session held is released while the stream lives on
+	var now dieSnapshot
+	ok := srv.WaitFor(wireBound(), func() bool { now = takeDieSnapshot(st); return now.equal(prior) })
+	close(stop)
+	pubDone.Wait()
+	detail := map[string]any{"plan": p, "path": path, "before_the_player": prior, "after_it_died": now, "server_socket_state_at_reset": state}
+	if !ok {
+		_, sample := wireGoroutines()
+		detail["goroutine_sample"] = sample
+		evid.Violation(t, "wire-player-died-inside-play", detail,
+			"a %s player was reset at %s of its PLAY; %v later the server still holds what the session had: before the player {consumers %d, rtsp connections %d, udp sockets %d, goroutines %v}, now {consumers %d, rtsp connections %d, udp sockets %d, goroutines %v}",
+			p.Kind, p.Point, wireBound(), prior.Consumers, prior.RtspConns, prior.UDPSockets, prior.Goroutines, now.Consumers, now.RtspConns, now.UDPSockets, now.Goroutines)
+	}
+	// (2) the bystander is untouched
+	if healthy != nil {
+		if how := healthy.closed(); how != "" {
+			evid.Violation(t, "wire-closed-wrongly", detail, "the healthy %s player lost its connection (%s) when another player died inside PLAY", p.Healthy, how)
+		}
+		if !receives(healthy) {
+			evid.Violation(t, "wire-others-disturbed", detail, "the healthy %s player stopped receiving after another player died inside PLAY", p.Healthy)
+		}
+	}
+	// (3) and nothing of it outlives the stream
+	srv.Unpublish(st)
+	ended = true
+	if healthy != nil {
+		if !srv.WaitFor(wireBound(), func() bool { return healthy.closed() != "" }) {
+			evid.Violation(t, "wire-not-released", detail, "the stream ended and the healthy %s player's connection is still open after %v", p.Healthy, wireBound())
+		}
+		healthy.disconnect()
+	}
+	var after dieSnapshot
+	if !srv.WaitFor(wireBound(), func() bool {
+		after = takeDieSnapshot(nil)
+		n, _ := srv.Streams()
+		return after.equal(before) && n == streams0
+	}) {
+		_, sample := wireGoroutines()
+		detail["before_the_case"], detail["after_the_stream_ended"], detail["goroutine_sample"] = before, after, sample
+		evid.Violation(t, "wire-player-died-inside-play", detail,
+			"a %s player was reset at %s of its PLAY; after the stream ended the server still holds: rtsp connections %d (before the case %d), udp sockets %d (%d), goroutines %v (%v)",
+			p.Kind, p.Point, after.RtspConns, before.RtspConns, after.UDPSockets, before.UDPSockets, after.Goroutines, before.Goroutines)
+	}
+	evid.Class(fmt.Sprintf("wire die-inside-PLAY: %s at %s, publisher active=%v, healthy bystander=%q", p.Kind, p.Point, p.Active, p.Healthy))
+	evid.Nontrivial(evid.FP("wire-die", fmt.Sprint(p)))
+}
+
+// TestWirePlayerDiesInsidePlay: the window between the registration of a
+// player's consumer and the writing of its PLAY response, at wire level.
+// Deterministic rounds over {tcp, udp, ws} x {join.registered, join.snapshotted}
+// x {silent, active publisher}, then rapid-drawn combinations with a healthy
+// bystander, codec, audio track and cache_gop.
+func TestWirePlayerDiesInsidePlay(t *testing.T) {
+	evid.Rule("wire die-inside-PLAY: a player (RTSP/TCP, RTSP/UDP, ws-rtsp) is reset (SO_LINGER 0) at the schedule point join.registered | join.snapshotted of its own consumer's join while the server handles its PLAY, so that the PLAY response cannot be written; silent | actively publishing stream, optional healthy bystander; afterwards consumer count, RTSP connection counter, session / delivery goroutines and the process's UDP sockets must be back, before and after the stream ends")
+	if udpSocketsOfProcess() < 0 {
+		evid.Assume("wire die-inside-PLAY: /proc/self/fd is not readable here; UDP sockets are not counted")
+	}
+	for _, kind := range []string{"tcp", "udp", "ws"} {
+		for _, point := range []string{"join.registered", "join.snapshotted"} {
+			for _, active := range []bool{false, true} {
+				evid.Eval(1)
+				dieInsidePlay(t, diePlan{Kind: kind, Point: point, Active: active})
+			}
+		}
+	}
+	evid.Checks(25, 400)
+	rapid.Check(t, func(t *rapid.T) {
+		p := diePlan{
+			Kind:     rapid.SampledFrom([]string{"tcp", "udp", "udp", "ws"}).Draw(t, "kind"),
+			Point:    rapid.SampledFrom([]string{"join.registered", "join.registered", "join.snapshotted"}).Draw(t, "point"),
+			Active:   rapid.Bool().Draw(t, "active"),
+			Healthy:  rapid.SampledFrom([]string{"", "tcp", "udp", "ws", "wsp", "httpflv"}).Draw(t, "healthy"),
+			H265:     rapid.Bool().Draw(t, "h265"),
+			Audio:    rapid.Bool().Draw(t, "audio"),
+			CacheGop: rapid.Bool().Draw(t, "cacheGop"),
+		}
+		evid.Eval(1)
+		dieInsidePlay(t, p)
+	})
+}
